@@ -147,7 +147,8 @@ def run_shard(spec, acc):
                              gen.OPENERS['dest_moves_while_open'],
                              gen.OPENERS['batch_merge'],
                              gen.OPENERS['batch_merge'],
-                             gen.OPENERS['conflict_on_later_target']])
+                             gen.OPENERS['conflict_on_later_target'],
+                             gen.OPENERS['queue_conflict']])
             if op:
                 op(g)
             g.walk(jobs // 2)
